@@ -52,7 +52,8 @@ def determinism(n):
     b30 = C30.build()
     configs.append(("C30/zero", b30["zero"], ["--variant", "zero"], 0)); configs.append(("C30/pattern", b30["pattern"], ["--variant", "pattern"], 0))
     wd = fresh_workdir("selftest52")
-    configs.append(("C52", C52.build(), ["--workdir", wd], 0))
+    b52 = C52.build()
+    configs.append(("C52", b52["asan"], ["--workdir", wd], 0)); configs.append(("C52/race", b52["race"], ["--workdir", wd], 0)); configs.append(("C29/race", C29.build()["race"], [], 0))
     for name, binary, extra, tier in configs:
         t0 = time.time()
         nn = n if not name.startswith("C52") and tier == 0 else max(200, n // 5)
